@@ -154,7 +154,7 @@ def sum_forward(a:np.ndarray, axis:'None| int | tuple', keepdims:bool):
 
 def sum_backward(grad:np.ndarray, a_shape:tuple, axis:'None| int | tuple', keepdims:bool):
     out_grad = np.zeros(a_shape, dtype=grad.dtype)
-    if not keepdims and axis is not None:
+    if not keepdims and axis is not None and len(a_shape) > 0:
         grad = unsqueeze_forward(grad, axis)
 
     out_grad = out_grad + grad
@@ -167,11 +167,11 @@ def mean_forward(a:np.ndarray, axis:'None| int | tuple', keepdims:bool):
 
 def mean_backward(grad:np.ndarray, a_shape:tuple, axis:'None| int | tuple', keepdims:bool):
     out_grad = np.zeros(a_shape, dtype=grad.dtype)
-    if not keepdims and axis is not None:
+    if not keepdims and axis is not None and len(a_shape) > 0:
         grad = unsqueeze_forward(grad, axis)
     
     if axis is None: axis = range(len(a_shape))
-    if isinstance(axis, int): axis = [axis]
+    if isinstance(axis, (int, np.integer)): axis = [axis]
     axis = [ax + len(a_shape) if ax < 0 else ax for ax in axis]
     n_samples = np.prod([a_shape[i] for i in range(len(a_shape)) if i in axis])
 
@@ -184,6 +184,9 @@ def max_forward(a, axis, keepdims):
     return np.max(a, axis=axis, keepdims=keepdims)
 
 def max_backward(grad, a, axis, keepdims, max_indices=None):
+    # a 0-d tensor is its own maximum, whatever dim was named
+    if a.ndim == 0:
+        return np.reshape(grad, ()) * np.ones_like(a)
     # Create mask of ones and zeros, where the maximum value is 1 
     mask = np.zeros_like(a)
     if max_indices is None:
@@ -204,6 +207,9 @@ def min_forward(a, axis, keepdims):
     return np.min(a, axis=axis, keepdims=keepdims)
 
 def min_backward(grad, a, axis, keepdims):
+    # a 0-d tensor is its own minimum, whatever dim was named
+    if a.ndim == 0:
+        return np.reshape(grad, ()) * np.ones_like(a)
     # Create mask of ones and zeros, where the minimum value is 1 
     mask = np.zeros_like(a)
     indices_min = np.argmin(a, axis=axis, keepdims=True)
